@@ -52,12 +52,49 @@ def make_cases(rng, n, debug=False):
       caps.update(njmax=int(rng.integers(3, 40)), njmax_nnz=int(rng.integers(2, 60)))
     else:
       caps.update(nvmax=int(rng.integers(0, 17)))
-    enable = 0
+    case = {"xml": SCENE % (jac, cone, solver), "caps": caps, "seed": int(rng.integers(1 << 30)), "vel": float(10.0 ** rng.uniform(-1, 1.5)),
+            "steps": 2, "debug": debug, "class": f"{jac}/{cone}/{solver}/{sorted(caps)}"}  # fmt: skip
     if rng.random() < 0.3:
-      enable |= 1 << 4  # mjENBL_SLEEP? resolved in worker through mujoco enums is not needed: raw bits are accepted or rejected
-    cases.append({"xml": SCENE % (jac, cone, solver), "caps": caps, "seed": int(rng.integers(1 << 30)), "vel": float(10.0 ** rng.uniform(-1, 1.5)),
-                  "steps": 2, "debug": debug, "class": f"{jac}/{cone}/{solver}/{sorted(caps)}"})  # fmt: skip
+      case["enableflags"] = SLEEP_BIT  # sleeping (with islands): island discovery, compacted solve, wake kernels
+      case["class"] += "/sleep"
+    cases.append(case)
   return cases
+
+
+def _sleep_bit():
+  import mujoco
+
+  return int(mujoco.mjtEnableBit.mjENBL_SLEEP)
+
+
+SLEEP_BIT = _sleep_bit()
+
+
+def clique_xml(n, contact):
+  """n free bodies whose trees are coupled pairwise (complete graph): by connect equalities, or by resting in
+  one touching cluster.  Island discovery walks this graph with an explicit stack."""
+  import math
+
+  bodies, eqs = [], []
+  for i in range(n):
+    if contact:
+      x, y = 0.11 * math.cos(2 * math.pi * i / n), 0.11 * math.sin(2 * math.pi * i / n)
+      bodies.append(f'<body name="c{i}" pos="{x:.4f} {y:.4f} 0.2"><freejoint/><geom type="sphere" size="0.12"/></body>')
+    else:
+      bodies.append(f'<body name="c{i}" pos="{0.6 * i:.2f} 0 0.5"><freejoint/><geom type="sphere" size="0.05" contype="0" conaffinity="0"/></body>')
+  if not contact:
+    for i in range(n):
+      for j in range(i + 1, n):
+        eqs.append(f'<connect body1="c{i}" body2="c{j}" anchor="0 0 0"/>')
+  return f'<mujoco><option gravity="0 0 0"/><worldbody>{"".join(bodies)}</worldbody><equality>{"".join(eqs)}</equality></mujoco>'
+
+
+def clique_cases(debug):
+  out = []
+  for n, contact in ((5, False), (6, False), (8, False), (6, True), (7, True)):
+    out.append({"xml": clique_xml(n, contact), "caps": {"nworld": 2, "nconmax": 64, "njmax": 400}, "seed": n, "vel": 0.01, "steps": 2, "debug": debug,
+                "enableflags": SLEEP_BIT, "class": f"clique{n}/{'contact' if contact else 'connect'}/sleep+island" + ("/debug" if debug else "")})  # fmt: skip
+  return out
 
 
 def run_worker(cases, timeout=1500):
@@ -92,6 +129,8 @@ def classify(case, r):
     return "C17:crash:sparse-small-njmax_nnz"
   if r.startswith("exception") and "ZeroDivisionError" in r and (caps.get("nconmax") == 0 or caps.get("naconmax") == 0):
     return "C17:exception:naconmax=0:ZeroDivisionError"
+  if r.startswith("exception") and "ZeroDivisionError" in r and caps.get("njmax") == 0 and case.get("enableflags"):
+    return "C17:exception:ZeroDivisionError:njmax=0:sleep"
   if r.startswith("crash"):
     return "C17:crash:" + case["class"]
   return "C17:exception:" + r.split(":")[1] + ":" + case["class"]
@@ -148,8 +187,12 @@ def run(res):
     ("dense", "pyramidal", "CG", {"nworld": 1, "nconmax": 0, "njmax": 0}),
   ):
     cases.append({"xml": SCENE % (jac, cone, solver), "caps": caps, "seed": 1, "vel": 1.0, "steps": 2, "debug": False, "class": f"{jac}/{cone}/{solver}/{sorted(caps)}"})
+  # regression of the repaired njmax=0 + sleeping ZeroDivisionError
+  cases.append({"xml": SCENE % ("dense", "pyramidal", "Newton"), "caps": {"nworld": 2, "njmax": 0}, "seed": 1, "vel": 1.0, "steps": 2, "debug": False, "enableflags": SLEEP_BIT, "class": "dense/pyramidal/Newton/['njmax', 'nworld']/sleep"})
+  cases += clique_cases(False)  # dense tree-coupling graphs under sleep + island (explicit DFS stack of the flood fill)
   if not quick:
     cases += make_cases(rng, 6, debug=True)
+    cases += clique_cases(True)
   results = run_worker(cases)
   hist = {}
   for i, c in enumerate(cases):
